@@ -2,7 +2,7 @@ HOOKS = {
     "guard": "verif",
     "enable": "go build -tags verif (the harness module /verif/harness replaces github.com/mongodb/ftdc with /repo)",
     "baseline_off_cmd": "cd /repo && GOFLAGS=-mod=mod go test -vet=off -count=1 -timeout 25m ./...",
-    "source_commits": ["88e4868", "ce61a12"],
+    "source_commits": ["88e4868", "ce61a12", "1ec0135"],
     "add_only": True,
 }
 ENGINES = [
